@@ -1021,7 +1021,12 @@ where
             w4.move_to(fwd[s]);
             let mut seq4 = vec![];
             while let Some(x) = w4.next(g) { seq4.push(inv[&x]); if seq4.len() > lim { break; } }
-            json!({"s": s, "seq": seq, "none_again": again, "t": t, "seq2": seq2, "seq3": seq3, "seq4": seq4})
+            // the Walker trait: iter() wraps the walker and its context into an Iterator
+            let mut it = petgraph::visit::Walker::iter($W::new(g, fwd[s]), g);
+            let mut seq5 = vec![];
+            while let Some(x) = it.next() { seq5.push(inv[&x]); if seq5.len() > lim { break; } }
+            let _ = (it.inner_ref(), it.context());
+            json!({"s": s, "seq": seq, "none_again": again, "t": t, "seq2": seq2, "seq3": seq3, "seq4": seq4, "seq5": seq5})
         }).collect::<Vec<_>>())));
     }}}
     walker!(Dfs, "dfs");
@@ -1031,7 +1036,10 @@ where
         let mut w = Bfs::new(g, fwd[s]);
         let mut seq = vec![];
         while let Some(x) = w.next(g) { seq.push(inv[&x]); if seq.len() > lim { break; } }
-        json!({"s": s, "seq": seq, "none_again": w.next(g).is_none()})
+        let mut it = petgraph::visit::Walker::iter(Bfs::new(g, fwd[s]), g);
+        let mut seq5 = vec![];
+        while let Some(x) = it.next() { seq5.push(inv[&x]); if seq5.len() > lim { break; } }
+        json!({"s": s, "seq": seq, "none_again": w.next(g).is_none(), "seq5": seq5})
     }).collect::<Vec<_>>())));
     // depth_first_search with control scripts
     let mut cases = vec![];
